@@ -29,7 +29,9 @@ from the effect analysis). C15.5: matrix-kind flow — a matrix loaded by
 load_transform (validated with is_sim3, hence possibly Sim(3)) may only be
 inverted through sim3_inverse or under an is_se3 guard. C15.6: exports run
 after all processing steps, write each trajectory under its own file stem and
-the reference under its own.
+the reference under its own. C15.7: the merge step is a co-permutation (one
+argsort of the concatenated stamps applied to positions, orientations and
+stamps in their constructor roles; rule shared with C11.5).
 """
 UNDECIDED = [
     "numerical equality of exported and expected trajectories (rests on "
@@ -408,6 +410,8 @@ def check(ctx):
            "load_transform validates with is_sim3 (kind: SE(3) or Sim(3))",
            key="C15.5:kind-source", nontrivial=False)
 
+    _merge_step(ctx)
+
     # --------------------------------------------------------------- C15.6
     proc_last = max(e.idx for n in OPTION_OF for e in step_events[n])
     for e in step_events["export"]:
@@ -435,6 +439,20 @@ def check(ctx):
                + ("runs before processing finished" if not ok else
                   f"file stem {fmt(dest)} does not belong to the written "
                   f"trajectory {fmt(traj)}"), key="C15.6:export")
+
+
+def _merge_step(ctx):
+    """the documented `merging` step: the merged trajectory must be the
+    time-sorted union with every pose keeping its own data (rule shared with
+    C11.5, reported here as C15.7)"""
+    from ..core import Ctx
+    from .c11 import _merge
+    sub_ = Ctx(ctx.pid, ctx.prog, ctx.tier, ctx.seed)
+    _merge(sub_, ctx.prog)
+    for o in sub_.obligations:
+        ctx.ob("C15.7", o.site, o.ok, o.msg,
+               key=o.key.replace("C11.5", "C15.7"), **o.facts)
+    ctx.undecided.extend(sub_.undecided)
 
 
 def _only_kitti(e: Event) -> bool:
